@@ -5,7 +5,7 @@ BUILDS = [Build("df_spec", "harness/c13_defer.c", flavor="spec"),
           Build("df_memb", "harness/c13_defer.c", flavor="memb"),
           Build("df_qsbr", "harness/c13_defer.c", flavor="qsbr")]
 RULE = ("(a) every operation sequence of length len over {defer_rcu(f,p) for 3 functions (one at an odd address) x 4 argument "
-        "patterns (aligned, low bit set, the internal marker value, NULL), rcu_defer_barrier, unregister+register} with a "
+        "patterns (aligned, low bit set, the internal marker value, NULL), rcu_defer_barrier, rcu_defer_barrier_thread, unregister+register} with a "
         "queue of 8 slots (wrap-around and self-flush reached) is executed on the real urcu-defer-impl.h, the invocation log "
         "compared with the queued log after every barrier/unregister; (b) every schedule (preemption / TSO-delay / futex-fault "
         "budget) of owner || reclaimer || reader || third-party barrier || second owner scenarios with exactly-once, order, "
@@ -34,6 +34,7 @@ def jobs(tier):
     J.append(Job(S, "late_reader", "1,1,0,0", p8, workers=8))
     J.append(Job(S, "late_reader", "1,0,0,0" if q else "2,0,0,0", dict(p8, third_party=1), workers=8))
     J.append(Job(S, "two_owners", "1,0,0,0" if q else "2,0,0,0", dict(p8, two_owners=1), workers=8))
+    J.append(Job(S, "two_owners", "1,0,0,0" if q else "2,0,0,0", dict(p8, two_owners=1, barrier_thread=1), workers=8))
     for b, env in (("df_memb", {"VRT_MEMBARRIER": 2}), ("df_qsbr", {})):
         p = dict(p8, qs_attempts=1, wait_attempts=1)
         J.append(Job(b, "background", "1,0,0,0" if q else "2,0,0,0", p, env, workers=8))
